@@ -815,7 +815,7 @@ def must_started(ctx, body, P, sid, depth=0, seen=None):
             continue
         if not dom:
             continue
-        if c == strands_mod.JOIN and m.ok_implied(body, b):
+        if c == strands_mod.JOIN and m.checked_before(body, b, P):
             j = m.join_at.get((body.id, b))
             if j:
                 for sp in ctx.st.spawns:
@@ -824,7 +824,7 @@ def must_started(ctx, body, P, sid, depth=0, seen=None):
                         if ok:
                             return True, "%s inside task %s joined (checked) at %s" % (why, short(sp["task"]), t.get("ln"))
         elif c in ctx.facts.bodies and ctx.facts.bodies[c].crate == "nomt" and c not in (strands_mod.SPAWN, strands_mod.JOIN):
-            if m.ok_implied(body, b) or not m.fallible(body.place_ty(t["dest"])):
+            if m.checked_before(body, b, P):
                 ok, why = must_started(ctx, ctx.facts.bodies[c], "ret", sid, depth + 1, seen)
                 if ok:
                     return True, "%s via %s at %s" % (why, short(c), t.get("ln"))
